@@ -2,7 +2,9 @@
   Engine `osc` (C01).  One op line = one constructor call followed by every reader.
 
     <mode> <cap> <addr-hex> <tags-hex> <rest-hex> <arg-token>*        mode ∈ A V M L<k>
-    R <bytes-hex>                                                      raw length query
+    R <bytes-hex> [n]      rtosc_message_length of an encoded message followed by anything
+    Q <bytes-hex>          the same on bytes outside the property (regression witnesses of
+                           C07 fixes): only `len<=n` / `len>n` is printed
 
   arg tokens, one per payload tag:  w<8 hex>  q<16 hex>  m<8 hex>  s<hex|->
                                     b<len>:<hex|-|N>    (N = NULL data pointer)
@@ -10,12 +12,15 @@
   `cap` = size of the destination block (`N` = NULL buffer).  `rest` = bytes placed
   behind the message before the readers and rtosc_message_length run.
 
-  Output:  r=<ret> z=<ret with NULL buffer> b=<whole destination block>
+  Output:  r=<ret> z=<ret with NULL buffer> b=<the message bytes buffer[0..ret)>
            [len=.. as=<off>:<tags> n=.. ty=.. av=.. it=..]      (only when ret > 0)
+  Bytes behind the message and the content of a too small buffer are C02's observables and
+  are not printed.
   If the model predicts an out-of-bounds store or read, the line is the sanitizer's
   verdict `crash:asan:heap-buffer-overflow`.
 -/
 import RtoscModel.Osc.Length
+import RtoscModel.Osc.C01Fast
 import Driver.Common
 namespace Driver.OscEngine
 open Rtosc Rtosc.Osc
@@ -93,6 +98,9 @@ def showVal (m : Bytes) (t : UInt8) (v : CVal) : Option String :=
     | some (.arg (.str s)) => some (p ++ "@" ++ toString off ++ ":" ++ toHex s)
     | _ => none
   | .blob len off =>
+    if len.toNat ≥ 2147483648 then      -- negative `int32_t len`: the harness cannot follow the pointer
+      some (p ++ toString len.toNat ++ "@" ++ toString off ++ ":?")
+    else
     match CVal.view m (.blob len off) with
     | some (.arg (.blob d)) => some (p ++ toString len.toNat ++ "@" ++ toString off ++ ":" ++ toHex d)
     | _ => none
@@ -130,11 +138,18 @@ def construct (mode : String) (buffer : Option Bytes) (addr tags : Bytes) (args 
 
 def step (line : String) : String :=
   match words line with
-  | ["R", h] =>
+  | "R" :: h :: _ =>            -- further tokens are the oracle's
     match ofHex h with
     | some m =>
       match messageLength m with
       | some n => s!"len={n}"
+      | none => "hang"
+    | none => "bad-op"
+  | "Q" :: h :: _ =>
+    match ofHex h with
+    | some m =>
+      match messageLength m with
+      | some n => if n ≤ m.length then "len<=n" else "len>n"
       | none => "hang"
     | none => "bad-op"
   | mode :: cap :: a :: t :: rest :: toks =>
@@ -145,7 +160,7 @@ def step (line : String) : String :=
       | some res, some nul =>
         if res.oob then crash
         else
-          let head := s!"r={res.ret} z={nul.ret} b={match res.buf with | some b => toHex b | none => "NULL"}"
+          let head := s!"r={res.ret} z={nul.ret} b={match res.buf with | some b => toHex (b.take res.ret) | none => "NULL"}"
           match res.buf with
           | some b =>
             if res.ret = 0 then head
